@@ -17,3 +17,5 @@ out=$(VERIF_SEED=${VERIF_SEED:-1} bin/check $prop $tier 2>&1); rc=$?
 git -C /repo reset -q --hard HEAD; git -C /repo clean -fdq -- . 2>/dev/null
 echo "$out" | grep -E "VIOLATION|oracle=|DONE|KNOWN" | head -6
 if [ $rc -eq 1 ]; then echo "RESULT $d $prop $tier DETECTED"; elif [ $rc -eq 0 ]; then echo "RESULT $d $prop $tier MISSED"; else echo "RESULT $d $prop $tier INFRA rc=$rc"; echo "$out" | tail -5; fi
+# leave a build of the unchanged tree behind (direct uses of .build/simdrv must never see a seeded child)
+/verif/bin/build >/dev/null 2>&1
